@@ -435,3 +435,92 @@ func VerifC18_Multiply() {
 	vAssert(vNoAlias(out, l), "Multiply result shares no map with its argument")
 	vReach("end")
 }
+
+// ---- A8 quantity parsing: boundary numbers x every suffix, real parser (math/big abstracted exactly for Mul/IsInt64) ----
+
+var vNums = []string{"0", "1", "7", "8", "9", "10", "1000", "9007", "9008", "9223", "9224", "9223372036854775", "9223372036854776", "9223372036854775807", "9223372036854775808", "99999999999999999999"}
+var vNumVal = []int64{0, 1, 7, 8, 9, 10, 1000, 9007, 9008, 9223, 9224, 9223372036854775, 9223372036854776, math.MaxInt64, -1, -1} // -1: does not fit int64
+var vSuf = []string{"", "m", "k", "M", "G", "T", "P", "E", "Ki", "Mi", "Gi", "Ti", "Pi", "Ei", "x", "KI"}
+var vSufMul = []int64{1, 1, 1000, 1000000, 1000000000, 1000000000000, 1000000000000000, 1000000000000000000, 1 << 10, 1 << 20, 1 << 30, 1 << 40, 1 << 50, 1 << 60, 0, 0} // 0: not a suffix
+
+func VerifC18_ParseQuantity() {
+	ni := vChoice("num", len(vNums))
+	si := vChoice("suffix", len(vSuf))
+	milli := vBool("milli")
+	vSplit("suffix")
+	var s string
+	var n, mul int64
+	for i := range vNums {
+		for j := range vSuf {
+			if ni == i && si == j {
+				s, n, mul = vNums[i]+vSuf[j], vNumVal[i], vSufMul[j]
+			}
+		}
+	}
+	var got Quantity
+	var err error
+	if milli {
+		got, err = ParseVCore(s)
+	} else {
+		got, err = ParseQuantity(s)
+	}
+	// reference: exact product with overflow detection by division
+	ok := n >= 0 && mul != 0
+	if vSuf[0] == "" && si == 1 && !milli {
+		ok = false // 'm' only for vcores
+	}
+	want := int64(0)
+	if ok && n != 0 {
+		scale := mul
+		if milli && si != 1 {
+			if scale > math.MaxInt64/1000 {
+				ok = false
+			} else {
+				scale *= 1000
+			}
+		}
+		if ok && scale > math.MaxInt64/n {
+			ok = false
+		}
+		if ok {
+			want = n * scale
+		}
+	}
+	vAssert((err == nil) == ok, "P a quantity is accepted exactly when number, suffix and the scaled value are valid and fit int64")
+	if ok {
+		vAssert(int64(got) == want, "P an accepted quantity is the exact value with its SI / binary suffix (milli-units for vcores)")
+	}
+	vReach("end")
+}
+
+// ---- A3 mulValRatio: no wrap at the int64 boundaries (floating point theory) ----
+
+func vSignOK(v int64, ratio float64, r Quantity) bool {
+	return !(v > 0 && ratio > 0 && r < 0) && !(v < 0 && ratio < 0 && r < 0) && !(v > 0 && ratio < 0 && r > 0) && !(v < 0 && ratio > 0 && r > 0)
+}
+
+var vRatios = []float64{1, -1, 2, -2, 0.5, -0.5, 1024, -1024}
+var vBases = []int64{1, -1, math.MaxInt64, math.MinInt64, 1 << 62, -(1 << 62), 1 << 53, -(1 << 53)}
+
+// every int64 base, ratio a (signed) power of two: the F2 shape MaxInt64 x 1.0 and MinInt64 x -1.0 lives here
+func VerifC18_MulValRatioSign() {
+	v := vInt64("v")
+	ri := vChoice("ratio", len(vRatios))
+	vSplit("ratio")
+	ratio := vRatios[ri]
+	r := mulValRatio(Quantity(v), ratio)
+	vAssert(vSignOK(v, ratio, r), "A3 multiplying by a ratio never flips the sign (no wrap-around at the int64 limits)")
+	vReach("end")
+}
+
+// every non-NaN float64 ratio, base one of the boundary values (powers of two and the int64 extremes)
+func VerifC18_MulValRatioSignAnyRatio() {
+	bi := vChoice("base", len(vBases))
+	vSplit("base")
+	v := vBases[bi]
+	ratio := vFloat64("ratio")
+	vAssume(ratio == ratio) // not NaN
+	r := mulValRatio(Quantity(v), ratio)
+	vAssert(vSignOK(v, ratio, r), "A3 multiplying a boundary value by any ratio never flips the sign")
+	vReach("end")
+}
